@@ -356,7 +356,6 @@ func body2src(ex *Exec, st *State, s *SliceV) string {
 	return "?"
 }
 
-
 // ---------------------------------------------------------------- header
 
 // headerWriter: the module function reachable from WriteTo that takes an io.Writer and serialises a local chunk.
@@ -1289,7 +1288,6 @@ func sameTimeFormat(st *State, a, b Val) bool {
 	return false
 }
 
-
 // ---------------------------------------------------------------- per-event decoder
 
 // findEventDecoder: the function reachable from ReadFrom that consults the running-status reader
@@ -1561,7 +1559,7 @@ func ruleEventDecode(c *Ctx, rule, rulePanic string) {
 	wg.Wait()
 	type agg struct {
 		n, bad, panics int
-		why, pwhy     string
+		why, pwhy      string
 	}
 	by := map[string]*agg{}
 	var order []string
